@@ -659,7 +659,7 @@ func (fr *Frame) step(in ssa.Instruction, st *State, reach string, back map[[2]i
 			}
 			fr.nonNil[x.X] = x.Block()
 		}
-		if !fr.inRecoverScope() && !vc.safety && !fr.knownNonNil(x.X, x.Block()) && os.Getenv("GOVC_NONIL") == "" {
+		if !fr.inRecoverScope() && !vc.safety && !fr.knownNonNil(x.X, x.Block()) {
 			// execution continues past a field access only if the pointer is not nil
 			// (partial correctness; nil dereferences are obligations under the safety flag)
 			vc.assume(reach, fmt.Sprintf("(not (= %s 0))", ref))
